@@ -1,6 +1,7 @@
 package main
 
 import (
+	"go/types"
 	"fmt"
 	"go/token"
 	"regexp"
@@ -47,6 +48,8 @@ func runC12(w *World, r *Report) {
 	r.Rule("C12-R2", "SQL key predicate", "every SELECT/DELETE/UPDATE statement text constrains the *_key column (= ? with a key-function value, or LIKE '<prefix>%' with a '/'-terminated prefix)", 6)
 	r.Rule("C12-R3", "transactional delete", "store.DeleteTask: both deletes receive the transaction object; the transaction is finished on every path", 2)
 	r.Rule("C12-R4", "single-entry read-modify-write; dropped entries frozen", "UpdateTaskCollectionPosition: each of the three map updates uses the given channel (or the target position's own key) and is control-dependent on `origin == nil || !origin.Dropped` for that key", 6)
+	r.Rule("C12-R6", "a store call given a transaction runs inside it", "in every Put/Get/Delete of the four backend stores, no direct client call (*sql.DB statement, etcd client Put/Get/Delete) is reachable from the `txn != nil` branch, and that branch stages its statement on the transaction (*sql.Tx statement / append to the transaction's op list)", 12)
+	c12TxnBranch(w, r)
 	r.Rule("C12-R5", "identifiers validated before they become key segments", "validCreateRequest rejects a task id containing '/' before any store call of Create", 1)
 
 	// ---------- key functions
@@ -381,5 +384,93 @@ func c12R4(w *World, r *Report, rule string) {
 		}
 	} else {
 		r.Undecided(rule, "UpdateTaskCollectionPosition", 0, "anchor not found")
+	}
+}
+
+// c12TxnBranch: C12-R6.
+func c12TxnBranch(w *World, r *Report) {
+	for _, typ := range []string{"TaskInfoEtcdStore", "TaskCollectionPositionEtcdStore", "TaskInfoMysqlStore", "TaskCollectionPositionMysqlStore"} {
+		for _, meth := range []string{"Put", "Get", "Delete"} {
+			fn := w.Func(pkgStore, typ, meth)
+			cons := fmt.Sprintf("(*%s).%s | txn branch", typ, meth)
+			if fn == nil {
+				r.Undecided("C12-R6", cons, 0, "anchor not found")
+				continue
+			}
+			var txnParam *ssa.Parameter
+			for _, p := range fn.Params {
+				if _, isI := p.Type().Underlying().(*types.Interface); isI && p.Type().Underlying().(*types.Interface).NumMethods() == 0 {
+					txnParam = p
+				}
+			}
+			if txnParam == nil {
+				r.Undecided("C12-R6", cons, fn.Pos(), "no transaction parameter found")
+				continue
+			}
+			var tBlock *ssa.BasicBlock
+			for _, b := range fn.Blocks {
+				cond, t, f, ok := ifSuccs(b)
+				if !ok {
+					continue
+				}
+				bo, isB := cond.(*ssa.BinOp)
+				if !isB || !((bo.X == ssa.Value(txnParam) && isNilConst(bo.Y)) || (bo.Y == ssa.Value(txnParam) && isNilConst(bo.X))) {
+					continue
+				}
+				if bo.Op == token.NEQ {
+					tBlock = t
+				} else if bo.Op == token.EQL {
+					tBlock = f
+				}
+			}
+			if tBlock == nil {
+				r.Undecided("C12-R6", cons, fn.Pos(), "no `txn != nil` test found: the transactional path is not understood")
+				continue
+			}
+			reach := blockReach(tBlock, nil)
+			reach[tBlock] = true
+			direct, staged := "", false
+			var where token.Pos
+			for b := range reach {
+				for _, in := range b.Instrs {
+					switch x := in.(type) {
+					case *ssa.MapUpdate:
+						if strings.HasSuffix(w.accessPath(x.Map), ".txnMap") {
+							staged = true
+						}
+					case ssa.CallInstruction:
+						c := x.Common()
+						var rt types.Type
+						if c.IsInvoke() {
+							rt = c.Value.Type()
+						} else if rv := callRecv(c); rv != nil {
+							rt = rv.Type()
+						}
+						if rt == nil {
+							continue
+						}
+						name := ""
+						if o := calleeObj(c); o != nil {
+							name = o.Name()
+						}
+						switch {
+						case typeIs(rt, "database/sql", "Tx"):
+							staged = true
+						case typeIs(rt, "database/sql", "DB"):
+							direct, where = "(*sql.DB)."+name, x.Pos()
+						case typeIs(rt, "go.etcd.io/etcd/client/v3", "Client") || typeIs(rt, "go.etcd.io/etcd/client/v3", "KV"):
+							if name == "Put" || name == "Get" || name == "Delete" || name == "Do" || name == "Txn" {
+								direct, where = "etcd client "+name, x.Pos()
+							}
+						}
+					}
+				}
+			}
+			if direct != "" {
+				r.Fail("C12-R6", cons, where, "with a transaction object the statement is sent through "+direct+", outside the transaction: when a later step or the commit fails this step is not rolled back and the deletion is no longer all-or-nothing")
+			} else {
+				r.Check(staged, "C12-R6", cons, fn.Pos(), "the statement is staged on the transaction; no direct client call is reachable", "the transactional branch neither stages the statement on the transaction nor is understood")
+			}
+		}
 	}
 }
